@@ -1057,8 +1057,9 @@ class OdeSystem(object):
                                     self.__events.append(ev_state)
 
                         if end_int:
-                            # The step is rolled back to the event, so its interpolant is discarded as well
-                            self.__sol.remove_interpolant(-1)
+                            # The step is rolled back to the event, so its interpolant(s) are discarded as well
+                            while len(self.__sol) > __pre_length:
+                                self.__sol.remove_interpolant(-1)
                             self.integrate(roots[-1])
                             self.__int_status = 2
                         else:
